@@ -60,22 +60,26 @@ Qed.
 Lemma epoch_cos : epoch = cos 0.
 Proof. vm_compute. reflexivity. Qed.
 
+Lemma diff0 f1 f2 : valid_fields f1 = true -> valid_fields f2 = true ->
+  int64 (fy f1) -> int64 (fy f2) ->
+  int64 (sec_of f1 - sec_of f2) -> difference64 0 f1 f2 = OK (sec_of f1 - sec_of f2).
+Proof.
+  intros V1 V2 I1 I2 H.
+  exact (difference_refines_lemma 0 f1 f2 ltac:(lia) V1 V2 (align0 _) (align0 _) I1 I2 H).
+Qed.
+
 Lemma diff_l cs b : valid_fields cs = true -> int64 (fy cs) -> - SB <= b <= SB ->
   int64 (sec_of cs - b) -> difference64 0 cs (cos b) = OK (sec_of cs - b).
 Proof.
   intros V I Hb Hd.
-  pose proof (difference_refines_lemma 0 cs (cos b) ltac:(lia) V (valid_cos b) (align0 _) (align0 _)
-                I (year_ok b Hb)) as P.
-  rewrite !ord0, sec_of_cos in P. apply P. exact Hd.
+  rewrite diff0; auto using valid_cos, year_ok; rewrite sec_of_cos; auto.
 Qed.
 
 Lemma diff_r cs b : valid_fields cs = true -> int64 (fy cs) -> - SB <= b <= SB ->
   int64 (b - sec_of cs) -> difference64 0 (cos b) cs = OK (b - sec_of cs).
 Proof.
   intros V I Hb Hd.
-  pose proof (difference_refines_lemma 0 (cos b) cs ltac:(lia) (valid_cos b) V (align0 _) (align0 _)
-                (year_ok b Hb) I) as P.
-  rewrite !ord0, sec_of_cos in P. apply P. exact Hd.
+  rewrite diff0; auto using valid_cos, year_ok; rewrite sec_of_cos; auto.
 Qed.
 
 Lemma lt_l cs b : valid_fields cs = true -> lt64 cs (cos b) = (sec_of cs <? b).
